@@ -62,6 +62,10 @@ func TestShow(t *testing.T) {
 			fmt.Println("anomaly", owner, "at repetition", i)
 			break
 		}
+		if slow := envInt("VERIF_SLOW_MS", 0); slow > 0 && ans.WallMs > float64(slow) {
+			fmt.Println("slow run at repetition", i, ans.WallMs)
+			break
+		}
 		ans = RunCase(req)
 	}
 	if len(ans.Hang) > 1 {
